@@ -474,6 +474,15 @@ def replay_reflection_source(d):
     return False, "the tree holds the bindings' extension fields and signal blocks as written in the source"
 
 
+def replay_reflection_after_rpc(d):
+    from .checks import reflection_checks as rc
+
+    bad = rc.after_rpc_mismatch(d["template"], _fcp_text)
+    if bad:
+        return True, bad
+    return False, "reflection() lists what the tree holds after generate_rpc"
+
+
 def replay_reflection(d):
     """Real reflection() + encode/decode on the template tree with the concrete leaves of the counterexample."""
     from fcp import serde
